@@ -129,6 +129,9 @@ func c06Exec(op string) string {
 		if string(b) != kept {
 			notes = append(notes, "KEPT the bytes Json() returned changed during later encoder calls")
 		}
+		if wn := wrapMapToJson(m, safe); wn != "" {
+			notes = append(notes, wn)
+		}
 		// members of Go type mxj.Map, map[string]string or []string are JSON objects / arrays like the
 		// plain containers: the same text in both escaping modes, no escaped <, >, & in the default mode
 		if tm := retype(m, hashStr(op), "MSL", 0).(map[string]interface{}); len(notes) == 0 && enc(tm) != enc(m) {
